@@ -213,10 +213,6 @@ struct Shadow {
     /// node put on the wire for it since the connection was (re)opened, not yet accepted; a
     /// connection that is closed (by the peer, by the node, or re-dialled) has none
     outstanding: BTreeMap<u64, u64>,
-    /// a challenge that was outstanding on an entry when the entry's connection was re-opened
-    /// (handle_new_peer) WITHOUT a disconnect in between or after its issuance: by the property it
-    /// belongs to the previous connection; the code keeps it on a static entry (listed finding)
-    soft_stale: BTreeMap<u64, u64>,
     /// challenges on which a handshake was accepted
     accepted: BTreeSet<u64>,
     /// response messages delivered so far: (bytes, model term)
@@ -627,19 +623,14 @@ impl<'a> Ctx<'a> {
         }
 
         match &real {
-            Real::New(c) => {
-                if let Some(ch) = self.sh.outstanding.remove(c) {
-                    self.sh.soft_stale.insert(*c, ch);
-                }
-            }
-            Real::Disc(c, _) => {
+            // a re-opened or closed connection has no outstanding challenge
+            Real::New(c) | Real::Disc(c, _) => {
                 self.sh.outstanding.remove(c);
-                self.sh.soft_stale.remove(c);
             }
             _ => {}
         }
         let outstanding_before: BTreeMap<u64, u64> = self.sh.outstanding.clone();
-        let stale_before: BTreeMap<u64, u64> = self.sh.soft_stale.clone();
+
         // ---- run the real code ----
         {
             let mut d = self.sut.disk.lock().unwrap();
@@ -703,7 +694,6 @@ impl<'a> Ctx<'a> {
                     let id = self.sh.intern(&ch.challenge);
                     self.sh.issued.entry(*c).or_default().push(id);
                     self.sh.outstanding.insert(*c, id);
-                    self.sh.soft_stale.remove(c);
                     rows.push(vec![300, *c, 1, id]);
                 }
                 Ok(Message::HandshakeResponse(r)) => {
@@ -726,8 +716,7 @@ impl<'a> Ctx<'a> {
                     if chid != 0 {
                         self.sh.issued.entry(*c).or_default().push(chid);
                         self.sh.outstanding.insert(*c, chid);
-                        self.sh.soft_stale.remove(c);
-                    }
+                        }
                     let cv = vt(&r.core_version);
                     let wv = vt(&r.wallet_version);
                     rows.push(vec![300, *c, 2, k, tag, sk, sm, chid, cv.0, cv.1, cv.2, wv.0, wv.1, wv.2]);
@@ -739,7 +728,6 @@ impl<'a> Ctx<'a> {
             rows.push(vec![301, *c]);
             // the node closed the connection
             self.sh.outstanding.remove(c);
-            self.sh.soft_stale.remove(c);
         }
         let mut accepted_on: Vec<u64> = vec![];
         for e in &events {
@@ -801,9 +789,8 @@ impl<'a> Ctx<'a> {
 
         for c in &gone {
             self.sh.outstanding.remove(c);
-            self.sh.soft_stale.remove(c);
         }
-        self.oracle(act, cur_conn, resp_info.as_ref(), &accepted_on, &peers, &addr, &gone, &outstanding_before, &stale_before);
+        self.oracle(act, cur_conn, resp_info.as_ref(), &accepted_on, &peers, &addr, &gone, &outstanding_before);
         self.sh.prev_peers = peers;
         self.sh.prev_addr = addr;
         true
@@ -820,7 +807,6 @@ impl<'a> Ctx<'a> {
         addr: &[(u64, u64)],
         gone: &[u64],
         outstanding_before: &BTreeMap<u64, u64>,
-        stale_before: &BTreeMap<u64, u64>,
     ) {
         let k = self.expected.len() - 1;
         let prev = self.sh.prev_peers.clone();
@@ -830,7 +816,6 @@ impl<'a> Ctx<'a> {
         // (decided with the real `verify`, from what the node put on the wire, not from its state)
         let mut legit: Option<(u64, u64, u64)> = None; // (conn, key, challenge)
         let mut why_not = String::new();
-        let mut via_stale = false;
         if let Some((c, r)) = resp {
             let outstanding = outstanding_before.get(c).copied();
             let cv = vt(&r.core_version);
@@ -850,19 +835,6 @@ impl<'a> Ctx<'a> {
                     }
                 }
             }
-            // listed class: the response answers a challenge of the PREVIOUS connection of this entry
-            // that no disconnect has invalidated (the connection was only re-opened)
-            if legit.is_none() {
-                if let Some(ch) = stale_before.get(c).copied() {
-                    if verify(&self.sh.bytes_of(ch), &r.signature, &r.public_key)
-                        && version_ok
-                        && !self.sh.accepted.contains(&ch)
-                    {
-                        legit = Some((*c, self.keys.id(&r.public_key), ch));
-                        via_stale = true;
-                    }
-                }
-            }
         }
         // --- (1) acceptance only for a legitimate response on that very connection ---
         for c in accepted_on {
@@ -871,14 +843,6 @@ impl<'a> Ctx<'a> {
                     self.sh.accepted.insert(ch);
                     if self.sh.outstanding.get(c) == Some(&ch) {
                         self.sh.outstanding.remove(c);
-                    }
-                    self.sh.soft_stale.remove(c);
-                    if via_stale {
-                        self.known.push((
-                            "stale-challenge-survives-redial".to_string(),
-                            format!("step {} ({}): handshake accepted on connection {} under key {} for challenge {}, which the node issued on this entry BEFORE the connection was re-opened (handle_new_peer keeps challenge_for_peer of a static entry; no disconnect was processed in between)", k, act.label(), c, key, ch),
-                        ));
-                        self.tags.insert("stale-challenge");
                     }
                     self.accepted_count += 1;
                     self.tags.insert("accepted");
@@ -1289,8 +1253,8 @@ fn scripted() -> Vec<(&'static str, Vec<Act>)> {
             genuine(1, HONEST),
         ],
     ));
-    // listed: a challenge delivered while the static entry is not connected (message in flight after a
-    // disconnect) leaves a stored challenge that survives the re-dial
+    // a challenge delivered while the static entry is not connected (message in flight after a
+    // disconnect) leaves a stored challenge; the re-dial discards it (fix 8a16f73)
     v.push((
         "stale-challenge-survives-redial",
         vec![
